@@ -84,6 +84,11 @@ type knownFinding struct {
 	Status   string `json:"status"` // "open" or "fixed"
 	What     string `json:"what"`
 	Commit   string `json:"commit,omitempty"`
+	// Witnesses, if set, names a file (relative to /verif) with the hashes of the exact failing cases of this
+	// finding, one per line: only those cases are a known finding; the same class on any other case is a
+	// violation. Without it the class alone identifies the finding.
+	Witnesses string `json:"witnesses,omitempty"`
+	set       map[uint64]struct{}
 }
 
 // Ctx is the per-run state of a check.
@@ -117,6 +122,8 @@ type Ctx struct {
 	violationsTotal int64
 	knownHit        map[string]string
 	known           []knownFinding
+	anySets         bool
+	dumpKnown       map[string][]uint64
 	families        map[string]func(json.RawMessage) Result
 	famOrder        []string
 	deadline        time.Time
@@ -266,8 +273,22 @@ func (c *Ctx) record(fam string, w any, r Result) {
 	if r.Class != "" {
 		c.violationsTotal++
 		full := c.ID + "/" + fam + ":" + r.Class
-		for _, k := range c.known {
+		var wh uint64
+		if c.dumpKnown != nil || c.anySets {
+			b, _ := json.Marshal(w)
+			wh = hashKey(fam + "\x00" + string(b))
+		}
+		for i := range c.known {
+			k := &c.known[i]
 			if k.Property == c.ID && k.Status == "open" && k.Class == fam+":"+r.Class {
+				if c.dumpKnown != nil {
+					c.dumpKnown[fam+":"+r.Class] = append(c.dumpKnown[fam+":"+r.Class], wh)
+				}
+				if k.set != nil {
+					if _, ok := k.set[wh]; !ok {
+						continue // same class, but not one of the recorded failing cases: a new violation
+					}
+				}
 				if _, ok := c.knownHit[full]; !ok {
 					b, _ := json.Marshal(w)
 					c.knownHit[full] = fmt.Sprintf("%s witness=%s", k.What, truncate(string(b), 300))
@@ -311,6 +332,30 @@ func (c *Ctx) loadKnown() {
 		os.Exit(2)
 	}
 	c.known = all.Findings
+	for i := range c.known {
+		k := &c.known[i]
+		if k.Witnesses == "" || k.Status != "open" || k.Property != c.ID {
+			continue
+		}
+		data, err := os.ReadFile(filepath.Join(VerifDir, k.Witnesses))
+		if err != nil {
+			fmt.Fprintln(os.Stderr, "kit: witness set of a known finding unreadable:", err)
+			os.Exit(2)
+		}
+		k.set = map[uint64]struct{}{}
+		for _, line := range strings.Fields(string(data)) {
+			v, err := strconv.ParseUint(line, 16, 64)
+			if err != nil {
+				fmt.Fprintln(os.Stderr, "kit: bad witness hash in", k.Witnesses)
+				os.Exit(2)
+			}
+			k.set[v] = struct{}{}
+		}
+		c.anySets = true
+	}
+	if os.Getenv("VERIF_DUMP_KNOWN") != "" {
+		c.dumpKnown = map[string][]uint64{}
+	}
 }
 
 // Main is the entry point of a check binary.
@@ -415,6 +460,24 @@ func (c *Ctx) finish() int {
 	sort.Strings(kh)
 	for _, k := range kh {
 		fmt.Printf("KNOWN-FINDING: property=%s %s %s\n", c.ID, k, c.knownHit[k])
+	}
+	if dir := os.Getenv("VERIF_DUMP_KNOWN"); dir != "" && c.dumpKnown != nil {
+		// maintenance mode (never used by the registered commands): write the hashes of every failing case of the
+		// open known-finding classes, to be committed as the finding's witness set
+		_ = os.MkdirAll(dir, 0o755)
+		for cls, hs := range c.dumpKnown {
+			sort.Slice(hs, func(i, j int) bool { return hs[i] < hs[j] })
+			var b strings.Builder
+			var prev uint64
+			for i, h := range hs {
+				if i > 0 && h == prev {
+					continue
+				}
+				prev = h
+				fmt.Fprintf(&b, "%016x\n", h)
+			}
+			_ = os.WriteFile(filepath.Join(dir, c.ID+"-"+sanitize(cls)+".hashes"), []byte(b.String()), 0o644)
+		}
 	}
 	cov := map[string]any{}
 	for k, v := range c.extra {
